@@ -208,7 +208,7 @@ func runCheck(id, repo, verif, tier string, seed int, freeze bool, keep string, 
 		case "guards":
 			fvcs = append(fvcs, d.DisciplineGuards(cfg.GuardStructs))
 		case "frames":
-			fvcs = append(fvcs, d.DisciplineFrames())
+			fvcs = append(fvcs, d.DisciplineFrames(id))
 		default:
 			engineErrs = append(engineErrs, "unknown discipline "+disc)
 		}
@@ -426,7 +426,33 @@ func runCheck(id, repo, verif, tier string, seed int, freeze bool, keep string, 
 		}
 		assumptions := append([]string{}, cfg.Assumptions...)
 		ns := []string{}
+		inKeys := map[string]bool{}
+		for _, k := range keys {
+			inKeys[k] = true
+		}
+		where := contractHomes(d, specDir)
 		for n := range notes {
+			if strings.HasPrefix(n, "uses-contract\t") {
+				// a callee contract was assumed at a call site of a function under check: say where (if anywhere) the
+				// callee's own obligations are discharged
+				k := strings.TrimPrefix(n, "uses-contract\t")
+				if inKeys[k] {
+					continue // discharged by this very check
+				}
+				c := d.cs.Funcs[k]
+				switch {
+				case c != nil && c.Trusted:
+					n = "assumed contract (TRUSTED, body not checked against it anywhere): " + k + " - " + c.Reason
+				case c != nil && c.Iface && strings.HasPrefix(k, "callback "):
+					n = "assumed contract of a function-typed value (not proved for the functions passed in): " + k
+				case c != nil && c.Iface:
+					n = "assumed interface contract (implementations are not checked against it by this check): " + k + implsUnderContract(d, k)
+				case len(where[k]) > 0:
+					n = "callee contract assumed here, discharged by check(s) " + strings.Join(where[k], " ") + ": " + k
+				default:
+					n = "assumed contract (its own obligations are not discharged by any registered check): " + k
+				}
+			}
 			ns = append(ns, n)
 		}
 		sort.Strings(ns)
@@ -618,4 +644,98 @@ func (d *Driver) storesInvariantField(fn *ssa.Function) bool {
 		}
 	}
 	return false
+}
+
+// contractHomes maps a function key to the properties whose check discharges that function's own obligations
+// (contract `props` lists and the extra_functions of every property configuration).
+func contractHomes(d *Driver, specDir string) map[string][]string {
+	out := map[string][]string{}
+	add := func(k, p string) {
+		if !contains(out[k], p) {
+			out[k] = append(out[k], p)
+		}
+	}
+	for k, c := range d.cs.Funcs {
+		if c.Trusted || c.Iface {
+			continue
+		}
+		for _, p := range c.Props {
+			add(k, p)
+		}
+	}
+	files, _ := filepath.Glob(filepath.Join(specDir, "props", "*.json"))
+	for _, f := range files {
+		var pc PropConfig
+		if b, err := os.ReadFile(f); err == nil && json.Unmarshal(b, &pc) == nil {
+			id := pc.ID
+			if id == "" {
+				id = strings.TrimSuffix(filepath.Base(f), ".json")
+			}
+			for _, k := range pc.ExtraFuncs {
+				if c := d.cs.Funcs[k]; c != nil && !c.Trusted && !c.Iface && !c.safetyOnly() {
+					add(k, id)
+				}
+			}
+		}
+	}
+	for k := range out {
+		sort.Strings(out[k])
+	}
+	return out
+}
+
+// implsOf lists the package methods (with bodies) that implement interface method key ("Iface.Method").
+func implsOf(d *Driver, key string) []string {
+	i := strings.LastIndex(key, ".")
+	if i < 0 {
+		return nil
+	}
+	itName, meth := key[:i], key[i+1:]
+	obj := d.pkg.Pkg.Scope().Lookup(itName)
+	if obj == nil {
+		return nil
+	}
+	iface, ok := obj.Type().Underlying().(*types.Interface)
+	if !ok {
+		return nil
+	}
+	out := []string{}
+	for _, mem := range d.pkg.Members {
+		tn, ok := mem.(*ssa.Type)
+		if !ok {
+			continue
+		}
+		if _, isI := tn.Type().Underlying().(*types.Interface); isI {
+			continue
+		}
+		for _, t := range []types.Type{tn.Type(), types.NewPointer(tn.Type())} {
+			if !types.Implements(t, iface) {
+				continue
+			}
+			if sel := d.prog.MethodSets.MethodSet(t).Lookup(d.pkg.Pkg, meth); sel != nil {
+				if fn := d.prog.MethodValue(sel); fn != nil && len(fn.Blocks) > 0 && fn.Synthetic == "" {
+					k := fn.RelString(d.pkg.Pkg)
+					if !contains(out, k) {
+						out = append(out, k)
+					}
+				}
+			}
+			break
+		}
+	}
+	sort.Strings(out)
+	return out
+}
+
+// implsUnderContract says, for interface method key, which implementations carry a functional contract of their own.
+func implsUnderContract(d *Driver, key string) string {
+	with, without := []string{}, []string{}
+	for _, k := range implsOf(d, key) {
+		if c := d.cs.Funcs[k]; c != nil && !c.Trusted && !c.safetyOnly() {
+			with = append(with, k)
+		} else {
+			without = append(without, k)
+		}
+	}
+	return " (implementations with a functional contract of their own: " + strings.Join(with, ", ") + "; without: " + strings.Join(without, ", ") + ")"
 }
